@@ -39,6 +39,9 @@ func (lam *Lambda) Call(s *Scope, args List, depth int) (result Object) {
 	if 0 < len(lam.Doc.Name) {
 		ss.Name = Symbol(lam.Doc.Name)
 	}
+	if req := lam.requiredCount(); len(args) < req {
+		ErrorPanic(s, depth, "Too few arguments to %s. At least %d expected but got %d.", lam, req, len(args))
+	}
 	mode := reqMode
 	ai := 0
 	var (
@@ -197,6 +200,18 @@ func evalDefault(s *Scope, form Object, depth int) Object {
 		form = ListToFunc(s, list, d2)
 	}
 	return s.Eval(form, d2)
+}
+
+// requiredCount returns the number of required parameters, those before the
+// first lambda list keyword.
+func (lam *Lambda) requiredCount() (cnt int) {
+	for _, ad := range lam.Doc.Args {
+		if 0 < len(ad.Name) && ad.Name[0] == '&' {
+			break
+		}
+		cnt++
+	}
+	return
 }
 
 // isKey returns true if name is the name of a parameter declared between
